@@ -26,6 +26,17 @@ CHECKS = {
              "segmentation, and checks the five clauses (prefix delivered, exactly one ProtocolError, nothing later delivered, "
              "non-graceful Disconnected, at most one Close written). Beyond the enumerated space it is sampling.",
         note="Trusts harness/refmodel.py (self-tested per violation class), harness/wire.py, zlib for RSV1 contexts."),
+    "C05": dict(
+        category="exploration", design_ref="DESIGN.md section 3 / C05",
+        technique="exhaustive product-automaton comparison with an RFC 3629 recogniser + Hypothesis end-to-end iff and fail-fast checks",
+        text="The validator is compared with an independent RFC 3629 recogniser over the complete product automaton (every "
+             "reachable state pair x 256 bytes) and, black-box, over all 17652 strict prefixes of well-formed characters x 256 "
+             "next bytes x every 2-chunk split: exhaustive for the validator, so its verdict is decided for all byte strings. "
+             "End to end, Hypothesis sends valid/near-valid/invalid payloads as text messages (any fragmentation, interleaved "
+             "controls, read segmentation, plain or with permessage-deflate negotiated) and as close reasons and demands "
+             "delivery iff valid with the exact decoding; for invalid uncompressed text the stream is cut right after the "
+             "first offending byte and the ProtocolError must appear before the client idles (fail-fast).",
+        note="Trusts harness/utf8ref.py (checked against CPython's strict decoder on all 2-byte strings and a boundary table)."),
 }
 
 PENDING = {}
